@@ -13,8 +13,13 @@
 // The terminal receiver of consumer=recv deletes the heap operation state from inside the
 // completion call, so any touch of the operation state after completion is an ASan report.
 //
-// Case file:  case <id> term=<T> consumer=<recv|detached|sync> / endcase   (grammar: see parse())
-// Output per case: `sig ...` (probe), `recv ...`/`ret ...`, `count n`, `ledger ...`, `end ok`.
+// Case file:  case <id> term=<T> consumer=<recv|detached|sync> [static=1|2] [spre=1] / endcase   (grammar: see parse())
+// Output per case: `sig ...` (probe), `recv ...`/`ret ...`, `count n`, `xl ...` (C03s monitors), `ledger ...`, `end ok`.
+//
+// C03s: with -DSND_PURE / -DSND_REF the binary also has a STATICALLY TYPED builder (snd_static.hpp) used for cases
+// with `static=1` (pure catalogue: no erasure at all) resp. `static=2` (REF tier: any term, references preserved).
+// All binaries print the `xl` lines: exception ledger observations (`xl exc <where> alive|dead|null ...`), late
+// deliveries, hollow callables and `xl end` (tier, holes, exception ledger totals).
 #include "../e1_main.hpp"
 
 #include <pika/execution.hpp>
@@ -31,9 +36,12 @@
 #include <optional>
 #include <string>
 #include <tuple>
+#include <unordered_map>
 #include <unordered_set>
 #include <utility>
+#include <variant>
 #include <vector>
+#include <algorithm>
 
 #pragma GCC diagnostic ignored "-Wdeprecated-declarations"    // transfer_just
 
@@ -52,16 +60,108 @@ static void out(char const* fmt, ...)
     std::fflush(stdout);
 }
 
+// ---------------------------------------------------------------- EXCEPTION LEDGER (C03s)
+// Every exception object of the harness is an instance of verif_exc with an instance ledger: the
+// constructor (and the copy constructor: make_exception_ptr / throw copy the temporary into the
+// exception object) registers the address, the destructor removes it.  `origin` numbers the logical
+// exception (one per throw site execution / error leaf start), copies keep it.  An exception_ptr is
+// inspected WITHOUT touching the exception object unless the ledger says it is alive (libstdc++:
+// the first word of an exception_ptr is the address of the exception object).
+struct xledger_t
+{
+    std::mutex m;
+    std::unordered_map<void const*, long> live;    // exception object -> origin
+    std::vector<long long> origin_code;            // origin -> code
+    long ctor = 0, dtor = 0, bad = 0;
+};
+static xledger_t& XL()
+{
+    static xledger_t* l = new xledger_t;    // leaked on purpose
+    return *l;
+}
 struct verif_exc
 {
     long long code;
+    long origin;
+    std::string msg;
+    explicit verif_exc(long long c)
+      : code(c)
+      , msg("verif_exc " + std::to_string(c))
+    {
+        std::lock_guard<std::mutex> g(XL().m);
+        origin = long(XL().origin_code.size());
+        XL().origin_code.push_back(c);
+        if (!XL().live.emplace(this, origin).second) XL().bad++;
+        XL().ctor++;
+    }
+    verif_exc(verif_exc const& o)
+      : code(o.code)
+      , origin(o.origin)
+      , msg(o.msg)
+    {
+        std::lock_guard<std::mutex> g(XL().m);
+        if (!XL().live.count(&o)) XL().bad++;    // copied from a destroyed exception object
+        if (!XL().live.emplace(this, origin).second) XL().bad++;
+        XL().ctor++;
+    }
+    verif_exc& operator=(verif_exc const&) = delete;
+    ~verif_exc()
+    {
+        std::lock_guard<std::mutex> g(XL().m);
+        if (!XL().live.erase(this)) XL().bad++;    // destroyed twice
+        XL().dtor++;
+    }
 };
-static long long code_of(std::exception_ptr const& ep)
+struct xinfo
 {
-    try { std::rethrow_exception(ep); }
-    catch (verif_exc const& e) { return e.code; }
-    catch (...) { return -1; }    // foreign exception
+    bool null = false, alive = false, same = false;    // same: object, origin, code and message agree
+    long long code = -1;
+    long origin = -1;
+};
+static xinfo inspect(std::exception_ptr const& ep)
+{
+    xinfo x;
+    if (!ep)
+    {
+        x.null = true;
+        return x;
+    }
+    static_assert(sizeof(std::exception_ptr) == sizeof(void*), "libstdc++ layout of exception_ptr expected");
+    void const* raw = nullptr;
+    std::memcpy(&raw, &ep, sizeof raw);    // libstdc++ layout: the address of the exception object
+    {
+        std::lock_guard<std::mutex> g(XL().m);
+        auto it = XL().live.find(raw);
+        if (it == XL().live.end()) return x;    // dead (or foreign): never dereferenced
+        x.alive = true;
+        x.origin = it->second;
+    }
+    try
+    {
+        std::rethrow_exception(ep);
+    }
+    catch (verif_exc const& e)
+    {
+        x.code = e.code;
+        std::lock_guard<std::mutex> g(XL().m);
+        x.same = static_cast<void const*>(&e) == raw && e.origin == x.origin &&
+            std::size_t(e.origin) < XL().origin_code.size() && XL().origin_code[e.origin] == e.code &&
+            e.msg == "verif_exc " + std::to_string(e.code);
+    }
+    catch (...)
+    {
+    }
+    return x;
 }
+// the delivered exception at a named observation point: one `xl exc` line for the monitors
+static long long observe_exc(char const* where, std::exception_ptr const& ep)
+{
+    xinfo x = inspect(ep);
+    out("xl exc %s %s origin=%ld code=%lld same=%d", where, x.null ? "null" : (x.alive ? "alive" : "dead"),
+        x.origin, x.code, int(x.same));
+    return x.code;
+}
+static long long code_of(std::exception_ptr const& ep) { return inspect(ep).code; }
 
 // ---------------------------------------------------------------- LEDGER
 struct ledger_t
@@ -78,6 +178,7 @@ static ledger_t& L()
 struct P
 {
     long long v;
+    bool moved = false;    // C03s: a moved-from payload that is delivered prints as M<v>
     void reg()
     {
         std::lock_guard<std::mutex> g(L().m);
@@ -91,9 +192,9 @@ struct P
     }
     P(long long x = 0) : v(x) { reg(); }
     P(P const& o) : v(o.v) { chk(&o), reg(); }
-    P(P&& o) noexcept : v(o.v) { chk(&o), reg(); }
-    P& operator=(P const& o) { return chk(&o), chk(this), v = o.v, *this; }
-    P& operator=(P&& o) noexcept { return chk(&o), chk(this), v = o.v, *this; }
+    P(P&& o) noexcept : v(o.v), moved(o.moved) { chk(&o), reg(), o.moved = true; }
+    P& operator=(P const& o) { return chk(&o), chk(this), v = o.v, moved = o.moved, *this; }
+    P& operator=(P&& o) noexcept { return chk(&o), chk(this), v = o.v, moved = o.moved, o.moved = true, *this; }
     ~P()
     {
         std::lock_guard<std::mutex> g(L().m);
@@ -107,7 +208,11 @@ using snd = ex::unique_any_sender<V>;
 static std::string show(V const& v)
 {
     std::string s;
-    for (auto const& p : v) s += " " + std::to_string(p.v);
+    for (auto const& p : v)
+    {
+        P::chk(&p);    // a delivered payload must be a live object
+        s += (p.moved ? " M" : " ") + std::to_string(p.v);
+    }
     return s;
 }
 static V mk(std::vector<long long> const& is)
@@ -412,6 +517,18 @@ struct wrap
         return ex::connect(std::move(inner), wrap_recv<Pol, R>{std::forward<R>(r)});
     }
 };
+// C03s: set once the terminal receiver has destroyed the operation state; any signal that reaches
+// the probe or the terminal receiver afterwards is reported (`xl late`)
+static std::atomic<bool> g_released{false};
+static std::atomic<int> g_late{0};
+static void late_check(char const* where)
+{
+    if (g_released.load())
+    {
+        ++g_late;
+        out("xl late %s", where);
+    }
+}
 struct glue_pol    // forwards everything; only purpose: sends_done = true
 {
     using out_t = V;
@@ -442,9 +559,21 @@ struct probe_pol    // prints one `sig` line per completion signal, then forward
         out_("sig value", show(v));
         ex::set_value(std::move(r), std::move(v));
     }
-    static void error(std::exception_ptr const& e) { out("sig error %lld", code_of(e)); }
-    static void stopped() { out("sig stopped"); }
-    static void out_(char const* h, std::string const& s) { out("%s%s", h, s.c_str()); }
+    static void error(std::exception_ptr const& e)
+    {
+        late_check("probe");
+        out("sig error %lld", observe_exc("probe", e));
+    }
+    static void stopped()
+    {
+        late_check("probe");
+        out("sig stopped");
+    }
+    static void out_(char const* h, std::string const& s)
+    {
+        late_check("probe");
+        out("%s%s", h, s.c_str());
+    }
 };
 using glue = wrap<glue_pol>;
 using tuple_glue = wrap<tuple_pol>;
@@ -557,18 +686,23 @@ struct term_recv
     // each completion call releases the heap operation state from inside the call
     void set_value(V v) && noexcept
     {
+        late_check("recv");
         ++g_calls;
         out("recv value%s", show(v).c_str());
         release_op();
     }
     void set_error(std::exception_ptr e) && noexcept
     {
+        late_check("recv");
         ++g_calls;
-        out("recv error %lld", code_of(e));
+        out("recv error %lld", observe_exc("recv", e));
         release_op();
+        // the operation state is gone; the exception must still be alive through our own reference
+        observe_exc("after-release", e);
     }
     void set_stopped() && noexcept
     {
+        late_check("recv");
         ++g_calls;
         out("recv stopped");
         release_op();
@@ -577,11 +711,23 @@ struct term_recv
 };
 using term_op = ex::connect_result_t<probe, term_recv>;
 static term_op* g_op = nullptr;
+static void (*g_release_static)() = nullptr;    // C03s: deleter of the statically typed operation state
 static void release_op()
 {
+    if (g_release_static)
+    {
+        auto f = g_release_static;
+        g_release_static = nullptr;
+        f();
+    }
     delete g_op;    // a second completion call shows up as count 2 (and as ASan use-after-free)
     g_op = nullptr;
+    g_released = true;
 }
+
+#if defined(SND_REF) || defined(SND_PURE)
+#include "snd_static.hpp"
+#endif
 
 static bool uses_pool(Node const& n)
 {
@@ -628,6 +774,73 @@ static void run_one(case_t const& c)
         char const* argv[] = {"e0", "--pika:threads=2", "--pika:bind=none", nullptr};
         pika::start(nullptr, 3, argv);
     }
+    long const smode = long(c.geti("static", 0));
+    char const* tier = "erased";
+    int shape = -1;
+    long holes = 0;
+#if defined(SND_REF) || defined(SND_PURE)
+    g_spre = c.geti("spre", 0) != 0;
+#endif
+    if (smode >= 1)
+    {
+        // C03s: statically typed pipeline (see snd_static.hpp); a binary has one of the two tiers
+#if defined(SND_PURE)
+        senv env0{nullptr, std::make_shared<V const>(), nullptr};
+        if (consumer == "recv") shape = run_pure(root, env0, pure_catalogue{});
+        if (shape < 0)
+        {
+            out("xl nomatch");    // not a catalogue shape: the check re-runs the case on the REF tier
+            out("end ok");
+            return;
+        }
+        tier = "pure";
+        quiesce(pool, true);
+        out("count %d", g_calls.load());
+        if (g_calls == 0) drop_unfinished_static();
+#elif defined(SND_REF)
+        senv env0{nullptr, std::make_shared<V const>(), nullptr};
+        tier = "ref";
+        auto make = [&] { return sprobe<SBTop::type>{SBTop::build(root, env0), {}}; };
+        if (consumer == "recv")
+        {
+            run_recv_static(SBTop::build(root, env0));
+            quiesce(pool, true);
+            out("count %d", g_calls.load());
+            if (g_calls == 0) drop_unfinished_static();
+        }
+        else if (consumer == "detached")
+        {
+            ex::start_detached(make());
+            quiesce(pool, false);
+            out("count 1");
+        }
+        else
+        {
+            try
+            {
+                V r = tt::sync_wait(make());
+                quiesce(pool, false);
+                out("ret value%s", show(r).c_str());
+            }
+            catch (verif_exc const& e)
+            {
+                quiesce(pool, false);
+                observe_exc("ret", std::current_exception());
+                out("ret error %lld", e.code);
+            }
+            catch (...)
+            {
+                out("ret error -1");
+            }
+        }
+        holes = g_holes;
+#else
+        out("xl nostatic");    // this binary has no static tier
+        out("end ok");
+        return;
+#endif
+    }
+    else
     {
         auto make = [&] { return probe{build(root, std::make_shared<V const>())}; };
         if (consumer == "recv")
@@ -659,6 +872,7 @@ static void run_one(case_t const& c)
             catch (verif_exc const& e)
             {
                 quiesce(pool, false);
+                observe_exc("ret", std::current_exception());
                 out("ret error %lld", e.code);
             }
             catch (...)
@@ -666,6 +880,11 @@ static void run_one(case_t const& c)
                 out("ret error -1");
             }
         }
+    }
+    {
+        std::lock_guard<std::mutex> g(XL().m);
+        out("xl end tier=%s shape=%d holes=%ld late=%d xctor=%ld xdtor=%ld xlive=%zu xbad=%ld", tier, shape, holes,
+            g_late.load(), XL().ctor, XL().dtor, XL().live.size(), XL().bad);
     }
     out("ledger ctor=%ld dtor=%ld live=%zu bad=%ld", L().ctor, L().dtor, L().live.size(), L().bad);
     out("end ok");
